@@ -9,6 +9,7 @@ import (
 	"flag"
 	"fmt"
 	"os"
+	"path/filepath"
 	"runtime"
 	"sort"
 	"sync"
@@ -16,12 +17,12 @@ import (
 )
 
 type mismatch struct {
-	Check    string      `json:"check"`
-	Input    interface{} `json:"input"`
-	Got      interface{} `json:"got"`
-	Want     interface{} `json:"want"`
-	Note     string      `json:"note,omitempty"`
-	Key      string      `json:"key"`
+	Check string      `json:"check"`
+	Input interface{} `json:"input"`
+	Got   interface{} `json:"got"`
+	Want  interface{} `json:"want"`
+	Note  string      `json:"note,omitempty"`
+	Key   string      `json:"key"`
 }
 
 type report struct {
@@ -86,12 +87,19 @@ func main() {
 	out := flag.String("out", "", "report file")
 	seed := flag.Int64("seed", 1, "seed for the random part")
 	flag.Parse()
+	if *out != "" {
+		if abs, err := filepath.Abs(*out); err == nil {
+			*out = abs
+		}
+	}
 	r := report{Check: *check, Seed: *seed}
 	switch *check {
 	case "match":
 		r.Bound, r.Exhaustive = runMatch(*tier, *seed)
 	case "split":
 		r.Bound, r.Exhaustive = runSplit(*tier, *seed)
+	case "glob":
+		r.Bound, r.Exhaustive = runGlob(*tier, *seed)
 	default:
 		fmt.Fprintln(os.Stderr, "unknown check")
 		os.Exit(2)
